@@ -37,6 +37,7 @@ SHAPES = {
     "stringexpr": ["string:a${e(%(k)d)}b"],
     "pipe": ["nope | e(%(k)d)"],
     "lambda": ["(lambda: {1: e(%(k)d)})()[1]"],
+    "multiline": ["e(%(k)d,\n   1)", "\n  e(%(k)d)\n", "e(\n%(k)d\n)"],
 }
 
 
